@@ -262,7 +262,7 @@ def sel_assign(lhs):
         v = vals(body)
         n = len(lhs)
         for i in range(len(v) - n):
-            if v[i:i + n] == lhs and v[i + n] == "=" and (i == 0 or v[i - 1] in (";", "{", "}")):
+            if v[i:i + n] == lhs and v[i + n] == "=" and (i == 0 or v[i - 1] in (";", "{", "}", "let")):
                 j = i + n + 1
                 d = 0
                 while j < len(v) and not (d == 0 and v[j] == ";"):
@@ -343,6 +343,10 @@ SITES = [
     ("dirichlet_stick_out", "multi/dirichlet.rs", "DirichletFromBeta", "sample_to_slice", sel_assign(["*", "s"])),
     ("dirichlet_stick_acc", "multi/dirichlet.rs", "DirichletFromBeta", "sample_to_slice", sel_assign(["acc"])),
     ("triangular_sample", "triangular.rs", "Triangular", "sample", lambda body: body),
+    ("pert_sample", "pert.rs", "Pert", "sample", sel_tail),
+    ("pert_range", "pert.rs", "PertBuilder", "with_mode", sel_assign(["range"])),
+    ("pert_v", "pert.rs", "PertBuilder", "with_mode", sel_assign(["v"])),
+    ("pert_w", "pert.rs", "PertBuilder", "with_mode", sel_assign(["w"])),
     ("exp_new_lambda_inverse", "exponential.rs", "Exp", "new", sel_field_init("lambda_inverse")),
     ("weibull_new_inv_shape", "weibull.rs", "Weibull", "new", sel_field_init("inv_shape")),
     ("pareto_new_inv_neg_shape", "pareto.rs", "Pareto", "new", sel_field_init("inv_neg_shape")),
